@@ -23,6 +23,59 @@ def _foldable_default(P, f, d):
     return False
 
 
+_NO = object()
+
+
+def _const_test(e):
+    """truth value of a test made of literals only (after a parameter was replaced by its default), else _NO"""
+    if isinstance(e, ast.Constant):
+        return bool(e.value)
+    if isinstance(e, ast.UnaryOp) and isinstance(e.op, ast.Not):
+        v = _const_test(e.operand)
+        return _NO if v is _NO else (not v)
+    if isinstance(e, ast.Compare) and len(e.ops) == 1 and isinstance(e.left, ast.Constant) and isinstance(e.comparators[0], ast.Constant):
+        a, b = e.left.value, e.comparators[0].value
+        op = e.ops[0]
+        if isinstance(op, (ast.Is, ast.IsNot)) and (a is None or b is None or isinstance(a, bool) or isinstance(b, bool)):
+            same = a is b
+            return same if isinstance(op, ast.Is) else not same
+        if isinstance(op, (ast.Eq, ast.NotEq)) and type(a) is type(b):
+            return (a == b) if isinstance(op, ast.Eq) else (a != b)
+        return _NO
+    if isinstance(e, ast.Compare) and len(e.ops) == 1 and isinstance(e.ops[0], (ast.Is, ast.IsNot)) and isinstance(e.left, ast.Name) \
+            and isinstance(e.comparators[0], ast.Name) and e.left.id == e.comparators[0].id and e.left.id.isupper() | e.left.id.startswith("_"):
+        return isinstance(e.ops[0], ast.Is)  # a module-level sentinel compared with itself
+    if isinstance(e, ast.BoolOp):
+        vals = [_const_test(v) for v in e.values]
+        if isinstance(e.op, ast.And):
+            if any(v is False for v in vals):
+                return False
+            return True if all(v is True for v in vals) else _NO
+        if any(v is True for v in vals):
+            return True
+        return False if all(v is False for v in vals) else _NO
+    return _NO
+
+
+def _prune_constant_ifs(block):
+    out = []
+    for s_ in block:
+        for fld in ("body", "orelse", "finalbody"):
+            sub = getattr(s_, fld, None)
+            if isinstance(sub, list) and sub and isinstance(sub[0], ast.stmt):
+                setattr(s_, fld, _prune_constant_ifs(sub) or ([ast.copy_location(ast.Pass(), s_)] if fld == "body" else []))
+        if isinstance(s_, ast.Try):
+            for h in s_.handlers:
+                h.body = _prune_constant_ifs(h.body) or [ast.copy_location(ast.Pass(), s_)]
+        if isinstance(s_, ast.If):
+            v = _const_test(s_.test)
+            if v is not _NO:
+                out.extend(s_.body if v else s_.orelse)
+                continue
+        out.append(s_)
+    return out
+
+
 def specialise_new_defaults(P):
     """A known function that grew a new trailing parameter with a default (a feature for new callers): no call in
     the package passes it, so for every existing caller the parameter *is* its default.  The analyser's copy of
@@ -72,7 +125,7 @@ def specialise_new_defaults(P):
                 if isinstance(n.ctx, ast.Load) and n.id in sub:
                     return ast.copy_location(copy.deepcopy(sub[n.id]), n)
                 return n
-        f.node.body = [T().visit(s_) for s_ in f.node.body]
+        f.node.body = _prune_constant_ifs([T().visit(s_) for s_ in f.node.body]) or [ast.Pass()]
         if extra_pos:
             a.args = a.args[:len(kpos)]
             a.defaults = a.defaults[:len(a.defaults) - len(extra_pos)]
